@@ -241,7 +241,7 @@ class Ctx:
 
     def corpus(self):
         if self._corpus is None:
-            d, rep = extract.corpus_facts("quick" if self.tier == "quick" else "thorough")
+            d, rep = extract.corpus_facts("quick")
             self._corpus = (_load_cached(d), rep)
         return self._corpus
 
